@@ -69,6 +69,9 @@ func (in *dockerIn) query() string {
 		return "count_over_time(" + sel + rng + ")"
 	case "sumcount":
 		return "sum by (container) (count_over_time(" + sel + rng + "))"
+	case "sumdep":
+		// containers of one app of which some carry dep="" and others no dep label at all: an empty value is not a missing label
+		return "sum by (app, dep) (count_over_time(" + sel + rng + "))"
 	case "binop":
 		return "count_over_time(" + sel + rng + ") + count_over_time(" + renderSelector(in.Sel2) + rng + ")"
 	}
@@ -479,7 +482,7 @@ func allPerms(n int) [][]int {
 
 func genDeterminism(r *rand.Rand) dockerIn {
 	in := baseIn()
-	in.Shape = []string{"log", "count", "sumcount", "log"}[r.Intn(4)]
+	in.Shape = []string{"log", "count", "sumcount", "log", "sumdep"}[r.Intn(5)]
 	in.Start, in.End, in.Step, in.Range = []int{1700000000, 0}, []int{1700000060, 0}, 20, 600
 	nc := 2 + r.Intn(4)
 	sec := 1700000001
@@ -487,6 +490,9 @@ func genDeterminism(r *rand.Rand) dockerIn {
 		ctr := simpleCtr(fmt.Sprintf("id%d", c), fmt.Sprintf("n%d", c), nil)
 		// several Docker labels: the label map of every record has 10+ entries, so map order matters for keys
 		ctr.LabelKV = [][2][]int{{B("app"), B(pick(r, []string{"a", "b"}))}, {B("tier"), B(pick(r, []string{"x", "y"}))}, {B("com.example/role"), B("r")}}
+		if k := r.Intn(3); k > 0 {
+			ctr.LabelKV = append(ctr.LabelKV, [2][]int{B("dep"), B([]string{"", "", "x"}[k])})
+		}
 		ctr.Frames = []Frame{}
 		for j := 0; j < 1+r.Intn(4); j++ {
 			// distinct timestamps across the whole inventory, so that the rendered output is fully determined
